@@ -35,12 +35,17 @@ def bases():
         ("ze", D.E("X", [V("A", "unit", []), V("B", "tuple", [("0", "u16")]), V("C", "named", [("x", "u8"), ("y", "u64")])], ZC)),
         ("dg", D.S("X", [("a", "A"), ("n", "u32"), ("b", "B")], params=[P("A", "field"), P("B", "field")])),
         ("dc", D.S("X", [("arr", "[u8; N]"), ("t", "u16")], params=[P("N", "const")])),
+        ("dn", D.S("X", [("n", "u32"), ("s", "f64"), ("ss", "f64"), ("row", "u16"), ("scale", "u16")])),
+        ("zn", D.S("X", [("n", "u32"), ("s", "f64"), ("ss", "f64")], ZC)),
         # wide items: the hash streams are longer than 128 / 256 bytes and every field sits at a different offset of them
         ("dw", D.S("X", [(f"f{i:02d}", "u32") for i in range(24)])),
         ("zw", D.S("X", [(f"f{i:02d}", "u32") for i in range(24)], ZC)),
         ("ew", D.E("X", [V(f"V{i:02d}", "tuple", [("0", "u32")]) for i in range(20)])),
         ("zc", D.S("X", [("arr", "[u8; N]"), ("t", "u16")], ZC, params=[P("N", "const")])),
     ]
+
+
+KEYWORDS = {"as", "in", "if", "fn", "do", "for", "let", "mod", "pub", "ref", "use", "dyn", "mut", "box", "try", "else", "enum", "impl", "loop", "self", "true", "type", "move", "match", "where", "while", "yield", "false", "super", "trait", "crate", "const", "async", "await", "break", "macro", "union", "final", "return", "static", "struct", "unsafe", "extern", "typeof", "unsized", "virtual", "abstract", "become", "continue", "override", "priv"}
 
 
 def mutate(d):
@@ -84,6 +89,22 @@ def mutate(d):
                 m = clone(); m.variants[vi].fields[fi] = (fn, nt)
                 out.append((f"v{vi}f{fi}-type-{nt.replace(' ', '').replace('<', '_').replace('>', '_').replace('[', '_').replace(']', '_').replace(';', 'x').replace(',', '_').replace('(', '_').replace(')', '_')}", m))
         for fi in range(len(v.fields) - 1):
+            if v.style == "named" and v.fields[fi][1] != v.fields[fi + 1][1]:
+                # the two types exchanged, names kept
+                m = clone()
+                fs = m.variants[vi].fields
+                fs[fi], fs[fi + 1] = (fs[fi][0], fs[fi + 1][1]), (fs[fi + 1][0], fs[fi][1])
+                out.append((f"v{vi}-typeswap{fi}", m))
+            if v.style == "named":
+                # a rename that moves one character across the boundary of two adjacent names
+                a, b = v.fields[fi][0], v.fields[fi + 1][0]
+                names = [f[0] for f in v.fields]
+                if (len(b) > 1 and not a.startswith("r#") and not b.startswith("r#") and (b[1].isalpha() or b[1] == "_") and b[1:] != "_"
+                        and b[1:] not in KEYWORDS and a + b[0] not in names and b[1:] not in names):
+                    m = clone()
+                    m.variants[vi].fields[fi] = (a + b[0], v.fields[fi][1])
+                    m.variants[vi].fields[fi + 1] = (b[1:], v.fields[fi + 1][1])
+                    out.append((f"v{vi}-boundary{fi}", m))
             m = clone()
             fs = m.variants[vi].fields
             if v.style == "tuple":
@@ -124,7 +145,7 @@ def mutate(d):
 
 # instantiation arguments per base: [(args exprs, label)]
 ARGS = {
-    "dg": [(["Vec<u16>", "String"], "a1"), (["Vec<i16>", "String"], "a2"), (["Box<[u16]>", "String"], "a3"), (["String", "Vec<u16>"], "a4"), (["Vec<u16>", "Box<str>"], "a5")],
+    "dg": [(["i32", "String"], "a0"), (["u32", "String"], "a00"), (["Vec<u16>", "String"], "a1"), (["Vec<i16>", "String"], "a2"), (["Box<[u16]>", "String"], "a3"), (["String", "Vec<u16>"], "a4"), (["Vec<u16>", "Box<str>"], "a5")],
     "dc": [(["2"], "n2"), (["3"], "n3")],
     "zc": [(["2"], "n2"), (["3"], "n3")],
 }
